@@ -295,8 +295,11 @@ gg~(~)
 ''',
 }
 
+CORPUS['p3'] = "xx~=~'a" + chr(0x85) + "b" + chr(0x2028) + "c" + chr(12) + "d" + chr(0x1c) + "e" + chr(13) + "f'" + chr(10) + \
+    "if xx~:" + chr(10) + "    yy~=~stringLength~(~xx~)~+~1" + chr(10) + "endif" + chr(10) + "return yy" + chr(10)
+
 CORE = '''
-from bare_script import parse_script
+from bare_script import parse_script, parse_expression
 from bare_script.parser import BareScriptParserError
 
 MARKED = {marked!r}
@@ -371,6 +374,42 @@ def core_chunk(crlf, c1, c2):
     return _check(CANON, crlf, chunks, 'chunking at line boundaries')
 
 
+def _poison(x):
+    if isinstance(x, dict):
+        for v in list(x.values()):
+            _poison(v)
+        x['__poison__'] = 1
+    elif isinstance(x, list):
+        for v in x:
+            _poison(v)
+        x.append('__poison__')
+
+
+def core_state(crlf, li):
+    # parse_script / parse_expression keep no state between calls: editing a returned model must not show in a later parse
+    import copy
+    sep = chr(13) + chr(10) if crlf else chr(10)
+    text = sep.join(CANON) + sep
+    first = parse_script(text)
+    want = copy.deepcopy(first)
+    _poison(first)
+    second = parse_script(text)
+    if second != want:
+        return False, {{'clause': 'a second parse of the same text is affected by edits to the first result (parser keeps state)', 'second': repr(second)[:300]}}
+    line = CANON[li].strip()
+    if '=' in line and not line.startswith(('if', 'elif', 'while', 'for', 'jumpif')):
+        etext = line.split('=', 1)[1]
+        try:
+            e1 = parse_expression(etext)
+        except BareScriptParserError:
+            return True, {{}}
+        w = copy.deepcopy(e1)
+        _poison(e1)
+        if parse_expression(etext) != w:
+            return False, {{'clause': 'parse_expression keeps state between calls', 'expr': etext}}
+    return True, {{}}
+
+
 def core_cont(crlf, li, gi, mid):
     line = LINES[li]
     gaps = _gaps(line)
@@ -405,8 +444,9 @@ def plan(tier, seed, workdir):
         body += hgen.harness('insert', 'crlf: bool, pos: int, kind: int', [f'0 <= pos <= {n}', '0 <= kind <= 2'],
                              core_call='core_insert(crlf, pos, kind)')
         body += hgen.harness('chunk', 'crlf: bool, c1: int, c2: int', [f'0 <= c1 <= c2 <= {n}'], core_call='core_chunk(crlf, c1, c2)')
+        body += hgen.harness('state', 'crlf: bool, li: int', [f'0 <= li < {n}'], core_call='core_state(crlf, li)')
         path = hgen.write_module(workdir, f'c10_{pname}', body)
-        for fn in ('ws', 'insert', 'chunk'):
+        for fn in ('ws', 'insert', 'chunk', 'state'):
             hgen.ch_tasks(p, path, fn, timeout, twin_timeout=60, est=timeout / 3, family='E1 rewrite ' + fn, program=pname)
         # continuation: one condition per line so that they spread over the cores
         for li in range(n):
@@ -418,7 +458,7 @@ def plan(tier, seed, workdir):
     p.rule = ('E2: one z3 query per live statement pattern (closure under leading/trailing blanks) + 4 language lemmas; E1: one CrossHair '
               'condition per (program, rewrite kind[, line]) with the rewrite chosen by symbolic ints/bools')
     p.bounds = ['E2: |s| <= 24, blanks <= 2-3; all strings printable ASCII + TAB, so \\w/\\d/\\s are modelled over ASCII (candidates must replay through parse_script)',
-                'E1: 2 marked programs covering every statement kind; one rewrite kind per condition (not combined), CRLF x each']
+                'E1: 3 marked programs (every statement kind; one with exotic line-break-like characters inside a string literal); one rewrite kind per condition (not combined), CRLF x each; statelessness by editing a returned model before re-parsing']
     p.stubs = []
     p.outside = ['invariance for arbitrary text (symbolic text cannot reach the regex-driven parser)', 'combinations of rewrite kinds',
                  'shipped .bare scripts are not rewritten (only the marked corpus)']
